@@ -58,6 +58,7 @@ class Engine:
         self.queries = 0
         self.assumptions_used = set()     # names of trusted models touched on some path
         self.global_axioms = []           # z3 formulas added to every path (spec-function axioms)
+        self.budget_s = 900
         self.nl_mode = "nra"              # 'nra': real products are real products; 'uf': opaque (congruence only)
         self._reset_path([])
 
@@ -69,6 +70,8 @@ class Engine:
         self.fresh_n = 0
         self.pc = list(self.global_axioms)
         self.npc = 0
+        self.lits = {}
+        self._keep = []
         self.in_spec = 0
         self.path_notes = []
         self.ghost = {}
@@ -137,6 +140,25 @@ class Engine:
             return True
         if z3.is_false(s):
             return False
+        # boolean structure is decided atom by atom (short-circuit like Python's and/or): keeps every decision a literal
+        if not has_quant(s):
+            if z3.is_and(s):
+                for c in s.children():
+                    if not self.decide(c):
+                        return False
+                return True
+            if z3.is_or(s):
+                for c in s.children():
+                    if self.decide(c):
+                        return True
+                return False
+            if z3.is_not(s) and (z3.is_and(s.arg(0)) or z3.is_or(s.arg(0))):
+                return not self.decide(s.arg(0))
+        # a literal already decided on this path (deterministic, so replays stay aligned)
+        atom, neg = (s.arg(0), True) if z3.is_not(s) else (s, False)
+        known = self.lits.get(atom.get_id())
+        if known is not None:
+            return (not known) if neg else known
         pos = len(self.trail)
         if pos < len(self.prefix):
             b = self.prefix[pos]
@@ -158,6 +180,8 @@ class Engine:
                 raise Infeasible()
         self.trail.append(b)
         self.pc.append(cond if b else z3.Not(cond))
+        self.lits[atom.get_id()] = (not b) if neg else b
+        self._keep.append(atom)
         self.npc += 1
         return b
 
@@ -234,10 +258,13 @@ class Engine:
         Engine.current = self
         stack = [[]]
         first = True
+        t_start = time.time()
         while stack:
             prefix = stack.pop()
             if len(self.paths) >= self.max_paths:
                 raise Unsupported("path explosion (> %d paths) in %s" % (self.max_paths, self.label))
+            if time.time() - t_start > self.budget_s:
+                raise Unsupported("exploration budget of %d s exhausted after %d paths in %s" % (self.budget_s, len(self.paths), self.label))
             self._reset_path(prefix)
             kind, value = None, None
             try:
